@@ -305,9 +305,17 @@ def main():
             extract = json.loads(out)
         except Exception:
             extract = {"errors": ["extractor crashed: " + (err or out)[-400:]]}
-        for e in extract.get("errors", []):
+        # a translation that failed is a broken obligation only for the properties that use it
+        RELEVANT = {"structure": {"C13", "C14"}, "abi": {"C15", "C07", "C04"},
+                    "fns-nanbox": {"C06", "C11"}, "fns-logs": {"C05"}, "fns-state": {"C03", "C02"}}
+        rel_errors = [e for e in extract.get("errors", [])
+                      if prop in RELEVANT.get(e.split(":")[0], {prop})]
+        for e in rel_errors:
             obligations.append(("translate:" + e.split(":")[0], False, e))
-        if not extract.get("errors"):
+        for e in extract.get("errors", []):
+            if e not in rel_errors:
+                notes.append("translation problem outside this property's scope: " + e[:200])
+        if not rel_errors:
             obligations.append(("translate:/repo -> Gen/*.lean", True, "changed: %s" % extract.get("changed")))
 
         harness_ok, wasm_ok = True, True
@@ -539,7 +547,7 @@ def main():
             "trusted_base": [
                 "Lean 4.33 kernel",
                 "axioms used: " + ", ".join(sorted(set(a for v in axioms.values() for a in v))) if axioms else "axioms used: (none reported)",
-                "translator /verif/extract/extract.py (const-expression translator, Rust->wasm32 type map, regex/s-expression readers, clang 14 for the header)",
+                "translator /verif/extract/extract.py + rs2lean.py (const-expression translator, function-body translator for NanBox::encode/number, Logs::append/read_ptrs and the whole write state machine, Rust->wasm32 type map, regex/s-expression readers, clang 14 for the header)",
                 "correspondence harness /verif/harness/sfh and its canonicalisation; model driver lean/Driver.lean",
                 "modelled rather than verified: rmp encoders and marker table, bumpalo, Vec/ByteBuf growth, std float conversions, HashMap iteration order, wasm-only entry points",
             ],
